@@ -237,6 +237,16 @@ def gen_cases(ctx, n_random):
         add("accept_state_shape", g, "N", all_off, n_inputs=2)
     for src, _, _ in G.rare_shape_corpus():
         add("rare_shapes", G.from_text(src), "O", all_off, n_inputs=3)
+    # shapes on which a field RE-DERIVED at load time (instead of stored) would differ: a rule re-opened after another
+    # rule (its productions are not numbered consecutively); a state completing two productions of one rule with
+    # different lengths; both also with precedence-free conflicts
+    for txt in ("%start A\n%%\nA: 'a';\nB: 'b';\nA: 'c' | 'd' A | B;\n",
+                "%start S\n%%\nS: X 'x';\nX: 'p';\nY: 'q';\nX: 'r' Y;\nS: Y;\nY: 'q' 'q' X;\n",
+                "%start S\n%%\nS: 'a' E 'x' | E 'y';\nE: 'a' 'b' | 'b';\n",
+                "%start S\n%%\nS: 'a' E 'x' | E 'y' | 'c' E;\nE: 'a' 'b' 'b' | 'b' 'b' | 'b';\n"):
+        g = G.from_text(txt)
+        for kind in ("O", "G"):
+            add("rederived_field_shapes", g, kind, all_off, n_inputs=3)
     fams = [("random", lambda: G.random_grammar(rng)),
             ("reduced", lambda: G.reduced_random_grammar(rng)),
             ("nullable", lambda: G.nullable_heavy(rng)),
